@@ -1,6 +1,6 @@
 SPECIFICATION Spec
 CONSTANTS
-  Modes = {"free", "rot"}
+  Modes = {"free", "rot", "dup"}
   FreeMax = 3
   NCFree = 3
   NCRot = 14
